@@ -5,6 +5,7 @@ use vstd::prelude::*;
 //@include prelude/deps.rs
 //@include prelude/containers.rs
 //@include prelude/option.rs
+//@include prelude/strings.rs
 verus! {
 //@include units/types.inc
 //@include units/spec_common.inc
